@@ -834,6 +834,24 @@ func (s *Sim) Serve(r *req, f Fault) {
 		ps := s.w.Scan()
 		s.t.Note("@%s partials -> %d files", s.clock(), len(ps))
 		s.onPartials(r.gen, ps)
+		if s.prop == "C07" {
+			// the same answer rendered another way: every recorded range of three bytes or more is
+			// followed by a range nested inside it (the union is unchanged; the receiver's records
+			// may overlap, see C09's finding, and the sender's gap computation says it copes)
+			out := make([]*sts.Partial, len(ps))
+			for i, p := range ps {
+				c := *p
+				c.Parts = nil
+				for _, br := range p.Parts {
+					c.Parts = append(c.Parts, &sts.ByteRange{Beg: br.Beg, End: br.End})
+					if br.End-br.Beg >= 3 {
+						c.Parts = append(c.Parts, &sts.ByteRange{Beg: br.Beg + 1, End: br.End - 1})
+					}
+				}
+				out[i] = &c
+			}
+			ps = out
+		}
 		r.reply <- reqResult{partials: ps}
 	case "poll":
 		if f.Kind == XRefuse {
